@@ -21,6 +21,14 @@ negative / list spellings, enforce_ndim, meta, name, token, non-array positional
 position) and block_info / block_id / both consumers; the value a block function returns also encodes the identity it was told,
 so a payload looked up at another grid position changes the result even when shapes agree.  Every block of the grid must be
 produced unless a slice above culls.  The advertised output chunks are compared with the documented ones.
+History stream (harness/props_ext/c20_history.py): the ORDER of calls around the recorded call.  A step may carry `hist`
+([[input, kind], …] done to the input collection BEFORE map_blocks is called on it: attribute reads, __dask_keys__, __dask_graph__, .dask,
+compute, compute under the other optimize-graph setting, persist, to_delayed, the task-record protocol, dask.compute / persist / optimize,
+Array.optimize, used in another computed expression incl. another map_blocks, or the input IS x.persist() / x.optimize() / a pickle round
+trip / copy / deepcopy / freeze_chunks of a computed collection), `hist_after` (on the input after the call) and `hist_out` (on the call's
+result before its consumers are built).  Every run enumerates all settings over the five producer families of the keyword stream and over a
+pool of layout-drifting inputs (sliding-window reductions over ragged chunks, selections over elementwise of differently cut operands,
+steered to the layouts the optimizer re-cuts with equal block counts); the oracle is unchanged.
 Task-path probe: for every clean optimized program the payload `Blockwise._task` (the path taken when the call is fused) hands
 to each block id is read off the expression; a lookup that is not the block's own is lifted to a real fused computation
 (an elementwise op directly above the call) and reported only when that computation fails the checks above.
@@ -35,6 +43,7 @@ from __future__ import annotations
 import itertools
 import threading
 import warnings
+import weakref
 
 import numpy as np
 
@@ -156,6 +165,15 @@ def expected_input_info(layout, out_ind, bid, has_drop):
 
 
 _UID = itertools.count()
+_FN_REGISTRY = weakref.WeakValueDictionary()  # uid -> recording function (a pickled collection gets the SAME object back)
+
+
+class HistoryRaises(Exception):
+    """something done to an INPUT collection before / after the recorded call raised (not a map_blocks matter)"""
+
+
+class OutHistoryRaises(Exception):
+    """something done to the RESULT of the recorded call (keys / graph / compute / persist) raised"""
 
 
 class Recorder:
@@ -201,6 +219,7 @@ class _Fn:
         self.uid = next(_UID)
         self.idval = idval  # the value also encodes the block identity the function was told
         self.out_chunks = None  # the chunks= the caller passed / the advertised output chunks (set right after the call)
+        _FN_REGISTRY[self.uid] = self
 
     def _fallback_shape(self, blocks, block_id):
         """a function that is not told the chunk shape (block_id only): the caller knows the output chunks it asked for"""
@@ -211,12 +230,12 @@ class _Fn:
     def __dask_tokenize__(self):
         return (type(self).__name__, self.uid, id(self.rec))
 
-    def __reduce__(self):  # keep the same object when a graph is copied
-        return (_identity, (self,))
+    def __reduce__(self):  # keep the same object when a graph / collection is copied or pickled
+        return (_fn_lookup, (self.uid,))
 
 
-def _identity(x):
-    return x
+def _fn_lookup(uid):
+    return _FN_REGISTRY[uid]
 
 
 class FnInfo(_Fn):
@@ -343,6 +362,117 @@ def mb_numpy(step, np_inputs, layouts, out_chunks):
 # ------------------------------------------------------------------------------ program evaluation
 
 
+# ------------------------------------------------------------------------------ histories of a collection
+#
+# What was done to a collection BEFORE map_blocks is called on it (or to the input / the result AFTER the call) must not
+# change what the block function is told: the layout a call is built against is the one the input advertises when the call
+# is made, whether or not that collection was looked at, materialized, computed, persisted, copied or shipped before.
+# Every history is value-preserving; the `*ed` kinds REPLACE the collection by the one the operation returns.
+
+HIST_LOOK = ("chunks", "keys", "repr")  # reads that must not materialize anything
+HIST_MATERIALIZE = ("graph", "dask", "compute", "compute_flip", "persist", "to_delayed", "records")  # on the collection itself
+HIST_GLOBAL = ("dask.compute", "dask.persist", "dask.optimize", "optimize")  # through dask's entry points / returning a new collection
+HIST_USED = ("used", "used_reduce", "used_mb", "used_mb_info")  # part of ANOTHER computed expression
+HIST_REPLACE = ("persisted", "optimized", "pickled", "pickled_fresh", "copied", "deepcopied", "frozen")  # the input IS the returned object
+HIST_BEFORE = ("none",) + HIST_LOOK + HIST_MATERIALIZE + HIST_GLOBAL + HIST_USED + HIST_REPLACE
+HIST_AFTER = ("keys", "graph", "compute", "persist", "to_delayed", "used")  # on the input AFTER the call, before the result is computed
+HIST_OUT = ("keys", "graph", "compute", "persist", "to_delayed", "chunks")  # on the RESULT of the call, before consumers are built
+
+
+class _UsedPlain:
+    __name__ = "usedplain"
+
+    def __dask_tokenize__(self):
+        return ("_UsedPlain",)
+
+    def __call__(self, b):
+        return b
+
+
+class _UsedInfo:
+    __name__ = "usedinfo"
+
+    def __dask_tokenize__(self):
+        return ("_UsedInfo",)
+
+    def __call__(self, b, block_info=None):
+        return b
+
+
+def apply_history(x, kind):
+    """Do `kind` to the collection x; returns the collection map_blocks is then called on (x itself unless a REPLACE kind)."""
+    import copy
+    import pickle
+
+    import dask
+
+    if kind == "none":
+        return x
+    if kind == "chunks":
+        x.chunks, x.numblocks, x.shape, x.name, x.dtype, x.npartitions  # noqa: B018
+    elif kind == "keys":
+        x.__dask_keys__()
+    elif kind == "repr":
+        repr(x)
+        x._repr_html_()
+    elif kind == "graph":
+        len(x.__dask_graph__())
+    elif kind == "dask":
+        len(x.dask)
+    elif kind == "compute":
+        x.compute()
+    elif kind == "compute_flip":
+        # materialized under the OTHER optimize setting than the one the recorded call is built and computed under
+        with dask.config.set({"array.optimize-graph": not dask.config.get("array.optimize-graph", True)}):
+            x.compute()
+    elif kind == "persist":
+        x.persist()
+    elif kind == "to_delayed":
+        x.to_delayed()
+    elif kind == "records":
+        try:
+            x.__frisky_graph__()
+        except (NotImplementedError, ImportError, AttributeError):
+            pass
+    elif kind == "dask.compute":
+        dask.compute(x)
+    elif kind == "dask.persist":
+        dask.persist(x)
+    elif kind == "dask.optimize":
+        dask.optimize(x)
+    elif kind == "optimize":
+        x.optimize()
+    elif kind == "used":
+        (x + 1).compute()
+    elif kind == "used_reduce":
+        x.sum().compute()
+    elif kind == "used_mb":
+        x.map_blocks(_UsedPlain(), dtype=x.dtype).compute()
+    elif kind == "used_mb_info":
+        x.map_blocks(_UsedInfo(), dtype=x.dtype).compute()
+    elif kind == "persisted":
+        return x.persist()
+    elif kind == "optimized":
+        return x.optimize()
+    elif kind == "pickled":
+        x.compute()
+        return pickle.loads(pickle.dumps(x))
+    elif kind == "pickled_fresh":
+        return pickle.loads(pickle.dumps(x))
+    elif kind == "copied":
+        x.compute()
+        return copy.copy(x)
+    elif kind == "deepcopied":
+        x.compute()
+        return copy.deepcopy(x)
+    elif kind == "frozen":
+        x.compute()
+        return x.freeze_chunks()
+    else:
+        raise ValueError(f"unknown history {kind!r}")
+    return x
+
+
 def run_dask(prog, rec):
     """Evaluate with dask_array; returns (env, capture) where capture holds the call-time layouts."""
     import dask_array as da
@@ -352,6 +482,11 @@ def run_dask(prog, rec):
     for step in prog:
         if step["op"] == "mb_rec":
             ins = [env[a] for a in step["args"]]
+            for i, kind in step.get("hist") or []:
+                try:
+                    ins[int(i)] = apply_history(ins[int(i)], kind)
+                except Exception as e:
+                    raise HistoryRaises(f"{kind!r} on input {i} before the call: {type(e).__name__}: {str(e)[:200]}") from e
             y = mb_call(step, ins, rec)
             cap[step["out"]] = {
                 "layouts": [tuple(tuple(int(v) for v in c) for c in a.chunks) for a in ins],
@@ -361,6 +496,16 @@ def run_dask(prog, rec):
                 "uid": rec.last_uid,  # recorded invocations carry the uid of the function object of THIS call
             }
             env[step["out"]] = y
+            for i, kind in step.get("hist_after") or []:
+                try:
+                    apply_history(ins[int(i)], kind)
+                except Exception as e:
+                    raise HistoryRaises(f"{kind!r} on input {i} after the call: {type(e).__name__}: {str(e)[:200]}") from e
+            if step.get("hist_out"):
+                try:
+                    apply_history(y, step["hist_out"])
+                except Exception as e:
+                    raise OutHistoryRaises(f"{step['hist_out']!r} on the result of the call: {type(e).__name__}: {str(e)[:300]}") from e
         else:
             env[step["out"]] = P.apply_step(step, env, da, True)
     return env, cap
@@ -658,6 +803,116 @@ def gen_case(rng):
     return prog, g.env, g.focus
 
 
+DRIFT_KINDS = ("swv", "swv", "elem-rev", "elem-step", "elem-take")
+
+
+def drift_producer(rng, kind, cross=None):
+    """(program, name of its result): a candidate whose optimized block layout may differ from the advertised one
+    (`kind` in DRIFT_KINDS; `cross` = length of a second, untouched axis, 0 for 1-d)."""
+    from harness.props_ext import c03_layout as L
+
+    if cross is None:
+        cross = rng.choice([0, 0, 2, 3])
+    axis = rng.choice([0, 1]) if cross else 0
+    if kind == "swv":
+        w = rng.randint(2, 5)
+        c = L._swv_chunks(rng, w) or L._comp(rng, 12, 4)
+        n = sum(c)
+        cc = L._comp(rng, cross, rng.choice([1, 2])) if cross else None
+        shape, chunks = ([n], [c]) if not cross else (([n, cross], [c, cc]) if axis == 0 else ([cross, n], [cc, c]))
+        prog = [{"out": "v1", "op": "src", "shape": shape, "chunks": chunks, "mul": rng.choice([1, 3]), "off": rng.randint(0, 3), "mod": 1 << 40},
+                {"out": "v2", "op": "swv_reduce", "args": ["v1"], "window": w, "axis": axis, "fn": rng.choice(["sum", "max", "min"])}]
+        return prog, "v2"
+    n = rng.randint(5, 14)
+    k = rng.randint(2, min(5, n))
+    ca = L._comp(rng, n, k)
+    cb = L._other_comp(rng, n, k, [ca])
+    cc = L._comp(rng, cross, rng.choice([1, 2])) if cross else None
+
+    def lay(c):
+        return ([n], [c]) if not cross else (([n, cross], [c, cc]) if axis == 0 else ([cross, n], [cc, c]))
+
+    (sa, cha), (sb, chb) = lay(ca), lay(cb)
+    if kind == "elem-rev":
+        sel = ["s", None, None, -1]
+    elif kind == "elem-step":
+        sel = ["s", rng.choice([None, 1]), None, rng.choice([2, -2, 3])]
+    else:
+        sel = ["l", [rng.randrange(n) for _ in range(rng.randint(2, n + 2))]]
+    index = [sel] if axis == 0 else [["s", None, None, None], sel]
+    prog = [{"out": "v1", "op": "src", "shape": sa, "chunks": cha, "mul": 1, "off": 0, "mod": 1 << 40},
+            {"out": "v2", "op": "src", "shape": sb, "chunks": chb, "mul": 3, "off": 1, "mod": 1 << 40},
+            {"out": "v3", "op": rng.choice(["add", "maximum", "sub"]), "args": ["v1", "v2"]},
+            {"out": "v4", "op": "getitem", "args": ["v3"], "index": index}]
+    return prog, "v4"
+
+
+def steered_drift_producer(rng, kind, want="same-count", tries=25, cross=None):
+    """drift_producer retried until the optimizer settles on class `want` for it (steering only; None when none found).
+    Returns (program, result name, drift class)."""
+    from harness.props_ext import c03_layout as L
+
+    last = None
+    for _ in range(tries):
+        prog, x = drift_producer(rng, kind, cross)
+        with warnings.catch_warnings():
+            warnings.simplefilter("ignore")
+            try:
+                denv, _ = run_dask(prog, Recorder())
+                cls = L.drift_class(denv[x])
+            except Exception:  # noqa: BLE001
+                continue
+        if denv[x].size == 0 or any(0 in c for c in denv[x].chunks):
+            continue
+        last = (prog, x, cls)
+        if cls == want:
+            return last
+    return last
+
+
+def frozen_layout_cases(rng, n_cases, tries=400):
+    """Programs whose map_blocks input is an expression the OPTIMIZER settles on another block layout than the advertised one
+    with the SAME number of blocks per axis (any layout comparison by counts / totals lets it through, and the frozen
+    block_info then describes other blocks than the ones delivered): sliding-window reductions over ragged chunkings with
+    interior chunks one shorter than the window, and selections (reversal, stepped slices, integer lists) over an elementwise
+    combination of two operands with equal block counts and different cuts.  Candidates are steered (not judged) by the
+    layout the optimizer settles on (harness/props_ext/c03_layout.drift_class); a quarter is unsteered.
+    Yields (prog, root, key)."""
+    from harness.props_ext import c03_layout as L
+
+    made = 0
+    for _ in range(tries):
+        if made >= n_cases:
+            break
+        kind = rng.choice(DRIFT_KINDS)
+        prog, x = drift_producer(rng, kind)
+        with warnings.catch_warnings():
+            warnings.simplefilter("ignore")
+            try:
+                denv, _ = run_dask(prog, Recorder())
+                cls = L.drift_class(denv[x])
+            except Exception:  # noqa: BLE001
+                continue
+        if denv[x].size == 0 or any(0 in c for c in denv[x].chunks):
+            continue
+        if cls != "same-count" and made % 4 != 3:
+            continue
+        made += 1
+        step = {"op": "mb_rec", "args": [x], "kw": rng.choice(["info", "both", "both", "id"]), "method": rng.random() < 0.5, "out": "m1"}
+        if step["kw"] != "id" and rng.random() < 0.3:
+            step["idval"] = True
+        prog = prog + [step]
+        root = "m1"
+        above = rng.choice(["none", "none", "neg", "sum"])
+        if above == "neg":
+            prog.append({"out": "m2", "op": "neg", "args": ["m1"]})
+            root = "m2"
+        elif above == "sum":
+            prog.append({"out": "m2", "op": "reduce", "fn": "sum", "args": ["m1"], "axis": 0, "keepdims": False, "split_every": None})
+            root = "m2"
+        yield prog, root, ("frozen-layout", kind, cls, step["kw"], above)
+
+
 def describe(prog):
     out = []
     for st in prog:
@@ -714,6 +969,30 @@ def probe_task_path(y, out_chunks):
     return bad
 
 
+def _attribute_compute_failure(prog, msg, info):
+    """(signature, detail) of a computation of the recorded call's result (or of something above it) that raised"""
+    k = classify_known(prog, msg)
+    if k is None:
+        # does an INPUT of the map_blocks call already fail to compute on its own?  Then the
+        # failure lies below the call (not a block_info matter)
+        anc0 = P.prog_ancestry(prog)
+        for st in prog:
+            if st["op"] != "mb_rec":
+                continue
+            for a in st["args"]:
+                if "mb_rec" in anc0.get(a, set()) or any(s3["out"] == a and s3["op"] == "mb_rec" for s3 in prog):
+                    continue  # fed by another recorded call: its failure IS a map_blocks matter
+                try:
+                    run_dask(prog[: prog.index(st)], Recorder())[0][a].compute()
+                except Exception as e2:
+                    m2 = f"{type(e2).__name__}: {str(e2)[:200]}"
+                    drift = any(t in m2 for t in ("Missing dependency ('sliding-window-", "adjust_chunks specified with"))
+                    has_swv = any(s2["op"] == "swv_reduce" for s2 in prog)
+                    info["producer_fails"] = m2
+                    return ("swv-layout-drift" if (drift and has_swv) else "producer-raises", f"input {a} alone: {m2}")
+    return (k or "compute-raises", msg)
+
+
 def evaluate(prog, root, opt, probe=True):
     """Run one program under one optimize setting.  Returns (problems, info) with problems a list of
     (signature, detail)."""
@@ -727,6 +1006,12 @@ def evaluate(prog, root, opt, probe=True):
         with dask.config.set({"array.optimize-graph": opt}):
             try:
                 denv, cap = run_dask(prog, rec)
+            except HistoryRaises as e:
+                # what was done to an INPUT collection raised on its own (no block function involved): below the call
+                info["producer_fails"] = str(e)
+                return [("producer-raises", f"history {e}")], info
+            except OutHistoryRaises as e:
+                return [_attribute_compute_failure(prog, str(e), info)], info
             except Exception as e:
                 msg = f"{type(e).__name__}: {str(e)[:200]}"
                 # attribution: does the very same call construct with a function that takes neither block_info nor
@@ -741,27 +1026,7 @@ def evaluate(prog, root, opt, probe=True):
                 got = denv[root].compute()
             except Exception as e:
                 rec.live = False
-                msg = f"{type(e).__name__}: {str(e)[:300]}"
-                k = classify_known(prog, msg)
-                if k is None:
-                    # does an INPUT of the map_blocks call already fail to compute on its own?  Then the
-                    # failure lies below the call (not a block_info matter)
-                    anc0 = P.prog_ancestry(prog)
-                    for st in prog:
-                        if st["op"] != "mb_rec":
-                            continue
-                        for a in st["args"]:
-                            if "mb_rec" in anc0.get(a, set()) or any(s3["out"] == a and s3["op"] == "mb_rec" for s3 in prog):
-                                continue  # fed by another recorded call: its failure IS a map_blocks matter
-                            try:
-                                run_dask(prog[: prog.index(st)], Recorder())[0][a].compute()
-                            except Exception as e2:
-                                m2 = f"{type(e2).__name__}: {str(e2)[:200]}"
-                                drift = any(t in m2 for t in ("Missing dependency ('sliding-window-", "adjust_chunks specified with"))
-                                has_swv = any(s2["op"] == "swv_reduce" for s2 in prog)
-                                info["producer_fails"] = m2
-                                return [("swv-layout-drift" if (drift and has_swv) else "producer-raises", f"input {a} alone: {m2}")], info
-                return [(k or "compute-raises", msg)], info
+                return [_attribute_compute_failure(prog, f"{type(e).__name__}: {str(e)[:300]}", info)], info
             rec.live = False
     mbs = [st for st in prog if st["op"] == "mb_rec"]
     info["calls"] = len(rec.calls)
@@ -921,7 +1186,19 @@ def run(ctx, replay=None):
         "axis, implicit new axes, drop_axis, drop+new, drop+new multi-chunk, drop+chunks} x {from_array, elementwise below one/all inputs, binary "
         "elementwise below, rechunk below} x {nothing, elementwise, binary elementwise, culling slice, reduction, elementwise+slice, a second recorded "
         "map_blocks} above; 0-3 right-aligned inputs of rank 1-3 incl. mixed ranks, int/negative/list spellings, enforce_ndim, meta, name, token, "
-        "non-array positional arguments, block_info/block_id/both; the block value encodes the identity the function was told; quick 2 rounds"
+        "non-array positional arguments, block_info/block_id/both; the block value encodes the identity the function was told; quick 2 rounds.  "
+        "Frozen-layout stream: the map_blocks input is a sliding-window reduction over a ragged chunking with interior chunks one shorter than "
+        "the window, or a reversal / stepped slice / integer-list selection over an elementwise combination of operands with equal block counts "
+        "and different cuts, steered so that the optimizer settles on the advertised block COUNTS with other block SIZES; distinct by (kind, "
+        "drift class, keywords, consumer, optimize).  "
+        "History stream (props_ext/c20_history.py): per round every setting of {before the call on an input: none, chunks/keys/repr reads, "
+        "__dask_graph__, .dask, compute, compute under the other optimize setting, persist, to_delayed, task records, dask.compute/persist/optimize, "
+        "Array.optimize, used in x+1 / x.sum() / another map_blocks (with and without block_info) that was computed, input replaced by x.persist() / "
+        "x.optimize() / pickle round trip (computed or fresh) / copy / deepcopy / freeze_chunks; after the call on an input: keys, graph, compute, "
+        "persist, to_delayed, used; on the call's result before consumers: keys, graph, compute, persist, to_delayed, chunks} x {a pool of steered "
+        "layout-drifting producers: 1-d and 2-d sliding-window reductions over ragged chunks, reversal / stepped slice / integer list over an "
+        "elementwise combination of differently cut operands; one keyword-stream program (modes x below x above drawn from decks, history on one "
+        "or all inputs)}; every materializing setting runs over the whole pool; distinct by (when, history, producer, drift class / mode, consumer, optimize)"
     )
     ctx.assumptions = [
         "the layout 'advertised when the call was made' is x.chunks of every input and y.chunks of the result, read right after the call",
@@ -929,6 +1206,8 @@ def run(ctx, replay=None):
         "index-label alignment of multiple inputs (trailing axes) is taken from the map_blocks documentation (brute-force spec in this file)",
         "a call that only the block_info/block_id payload builder refuses (the same call with a function taking neither keyword constructs) "
         "is reported as payload-construction-raises; a call refused either way is not a C20 matter",
+        "histories are value-preserving operations; one that raises on its own on an INPUT collection is a matter below the call (noted as "
+        "producer-raises, not reported); one on the RESULT of the call that raises is reported like a failing compute of the call",
         "the fused task path (Blockwise._task / FusedBlockwise payload lookup) and enforce_ndim/meta/name/token are covered by the search only; "
         "the Lean model (bi.*) covers labels, output chunks and the per-input / output payload for drop_axis, new_axis, chunks= and mixed ranks",
     ]
@@ -968,7 +1247,7 @@ def run(ctx, replay=None):
     corr_pairs = []
     mb_pairs = []
     n_done = 0
-    def process(prog, root, key):
+    def process(prog, root, key, opts=(True, False)):
         mbst = next(s for s in prog if s["op"] == "mb_rec")
         i_mb = prog.index(mbst)
         if key is None:
@@ -976,12 +1255,12 @@ def run(ctx, replay=None):
             variant = (mbst["kw"], bool(mbst.get("like")), len(mbst["args"]), bool(mbst.get("drop_axis")), mbst.get("new_axis") is not None, mbst.get("chunks") is not None)
             above = tuple(st["op"] for st in prog[i_mb + 1:] if st["op"] != "src")
             key = (kinds_below[-3:], variant, above)
-        for opt in (True, False):
+        for opt in opts:
             problems, info = evaluate(prog, root, opt)
             ctx.count(key + (opt,), n=max(1, info.get("calls", 1)))
-            if n_done <= 3 or (key and key[0] == "kw" and ctx_samples["kw"] < 3):
-                if key and key[0] == "kw":
-                    ctx_samples["kw"] += 1
+            if n_done <= 3 or (key and key[0] in ctx_samples and ctx_samples[key[0]] < 3):
+                if key and key[0] in ctx_samples:
+                    ctx_samples[key[0]] += 1
                 ctx.sample({"program": describe(prog), "opt": opt, "calls": info.get("calls")})
             if str(info.get("task_path_probe", "")).startswith("mismatch-not-confirmed"):
                 ctx.notes["task_path_probe_mismatch_not_confirmed"] = ctx.notes.get("task_path_probe_mismatch_not_confirmed", 0) + 1
@@ -1012,7 +1291,7 @@ def run(ctx, replay=None):
                 mb_pairs.append((req, f"ok ind={f_nl(out_ind)} out={f_ll(c['out_chunks'])}"))
                 corr_pairs.extend(prs[1:])
 
-    ctx_samples = {"kw": 0}
+    ctx_samples = {"kw": 0, "hist": 0}
     sig_seen = {}
     corr_cap = {"limit": ctx.scale(1500, 20000)}
     todo = [(p, p[-1]["out"]) for p in corpus]
@@ -1038,6 +1317,35 @@ def run(ctx, replay=None):
             prog, npenv0, root = r
         n_done += 1
         process(prog, root, None)
+    # ---- inputs whose optimized layout keeps the advertised block COUNTS and changes the block SIZES (steered)
+    t_fl = _time.time()
+    n_fl = 0
+    fl_classes = {}
+    for prog, root, key in frozen_layout_cases(rng, ctx.scale(16, 300), tries=ctx.scale(400, 6000)):
+        if _time.time() - t_fl > ctx.scale(8, 120):
+            break
+        n_fl += 1
+        fl_classes[key[2]] = fl_classes.get(key[2], 0) + 1
+        process(prog, root, key)
+    ctx.notes["frozen_layout_programs"] = n_fl
+    for k, v in sorted(fl_classes.items()):
+        ctx.notes["frozen_layout_programs." + k] = v
+    ctx.notes["frozen_layout_seconds"] = round(_time.time() - t_fl, 1)
+    # ---- the order of calls around the recorded call: histories of the input / the result (harness/props_ext/c20_history.py)
+    from harness.props_ext import c20_history
+    t_h = _time.time()
+    n_h = 0
+    corr_cap["limit"] = len(corr_pairs) + ctx.scale(1500, 10000)
+    for prog, root, key, opts in c20_history.cases(rng, ctx.scale(1, 6)):
+        if _time.time() - t_h > ctx.scale(20, 200) or ctx.elapsed() > ctx.scale(100, 565):
+            ctx.notes["history_stream_stopped_early_at_program"] = n_h
+            break
+        n_h += 1
+        process(prog, root, key, opts)
+    ctx.notes["history_programs"] = n_h
+    ctx.notes["history_seconds"] = round(_time.time() - t_h, 1)
+    for k, v in c20_history.NOTES.items():
+        ctx.notes["histgen." + k] = v
     # ---- the kwarg space of map_blocks jointly with fusion context (harness/props_ext/c20_kwargs.py)
     from harness.props_ext import c20_kwargs
     t_kw = _time.time()
@@ -1126,6 +1434,24 @@ def shrink(prog, root, opt, sig):
         cand = [{kk: vv for kk, vv in st.items() if kk != k} if st["op"] == "mb_rec" else st for st in cur]
         if fails(cand, r):
             best = (cand, r)
+    # 3b. histories that do not matter for the failure (one entry at a time)
+    for k in ("hist_out", "hist_after", "hist"):
+        while True:
+            cur, r = best
+            tgt = next((st for st in cur if st["op"] == "mb_rec" and st.get(k)), None)
+            if tgt is None:
+                break
+            done = True
+            n = 1 if k == "hist_out" else len(tgt[k])
+            for j in range(n):
+                rest = None if k == "hist_out" else [e for q, e in enumerate(tgt[k]) if q != j]
+                cand = [({kk: vv for kk, vv in st.items() if kk != k} | ({k: rest} if rest else {})) if st is tgt else st for st in cur]
+                if fails(cand, r):
+                    best = (cand, r)
+                    done = False
+                    break
+            if done:
+                break
     # 4. remove steps nothing depends on any more
     cur, r = best
     while True:
